@@ -58,11 +58,79 @@ def cases(tier, seed):
                 if op == 'sqrt':
                     ka = [0, rng.randrange(1, 2 ** d)]
                 out.append(dict(kind='repeat', cfg=cfg, op=op, ka=ka, kb=kb, other=list(rng.choice(P)), hseed=rng.randrange(10 ** 6)))
+    # histories with FAILING calls: an evaluation that raises (singular value), a generation that raises (null
+    # pattern): nothing generated so far - incl. the operators used inside a composite - may be generated again
+    for cfg in (dict(p=2), dict(p=2, r=1), dict(p=3, r=1), dict(p=1, q=1)):
+        for op in ('inv', 'div', 'registered-unit', 'normalized'):
+            out.append(dict(kind='failing-history', cfg=cfg, op=op, hseed=rng.randrange(10 ** 6)))
     # long histories: one pattern, then MANY other patterns on the same operator, then the first again
     for cfg, op, n in ((dict(p=3), 'gp', 200), (dict(p=3), 'add', 200), (dict(p=3, r=1), 'reverse', 400), (dict(p=3), 'registered', 150),
                        (dict(p=2, q=1), 'neg', 200)):
         out.append(dict(kind='long-history', cfg=cfg, op=op, n=n if tier == 'quick' else 3 * n, hseed=rng.randrange(10 ** 6)))
     return out
+
+
+def _run_failing(desc, V):
+    from kingdon.multivector import MultiVector
+    kapi.install_recorder()
+    alg = make_alg(desc['cfg'])
+    op = desc['op']
+    d = alg.d
+    order = list(alg.canon2bin.values())
+    vec = [k for k in order if bin(k).count('1') == 1]
+    claims = [Note('nontrivial', '')]
+
+    def target(x):
+        if op == 'inv':
+            return x.inv()
+        if op == 'div':
+            return x / x
+        if op == 'normalized':
+            return x.normalized()
+        return regd(x)
+
+    if op == 'registered-unit':
+        ns = {}
+        exec('def reg_unit(x):\n    return x / x.normsq()\n', ns)
+        regd = alg.register(ns['reg_unit'])
+    good = MultiVector.fromkeysvalues(alg, tuple(vec), [V.var(f'g{i}') for i in range(len(vec))])
+    sing = MultiVector.fromkeysvalues(alg, tuple(vec), [0 for _ in vec])              # same key pattern, singular VALUE
+    null_keys = tuple(k for k in vec if alg.signs[k, k] == 0)                          # a pattern whose inverse fails at GENERATION time
+    try:
+        target(good)                          # first call: generation allowed
+    except ZeroDivisionError:
+        return [Eq('void', 1, 1)]
+    steps = []
+    for label, arg in (('singular-value', sing), ('null-pattern', MultiVector.fromkeysvalues(alg, null_keys, [V.var(f'n{i}') for i in range(len(null_keys))]) if null_keys else None)):
+        if arg is None:
+            continue
+        try:
+            target(arg)
+        except (ZeroDivisionError, FloatingPointError, ValueError, NameError):
+            pass
+        steps.append(label)
+        before = kapi.recorder_counts()
+        try:
+            target(good)
+        except ZeroDivisionError:
+            pass
+        after = kapi.recorder_counts()
+        diff = {k: after[k] - before[k] for k in after if after[k] != before[k]}
+        if diff:
+            claims.append(Fail(f'events-after-failing-call[{label}]', f'{op}: after a call that raised ({label}) the unchanged pattern was generated again: {diff}',
+                               fkey=f'failing-history|{op}|events-after-{label}'))
+    # operators used inside the composite: calling them directly now must not generate twice either
+    if null_keys:
+        n = MultiVector.fromkeysvalues(alg, null_keys, [V.var(f'm{i}') for i in range(len(null_keys))])
+        for _ in range(2):
+            try:
+                n * n; n.conjugate(); ~(n * n); n.sp(n); n.involute()
+                target(n)
+            except (ZeroDivisionError, ValueError, NameError):
+                pass
+    claims += _twice_claims(alg, op)
+    claims.append(Eq('history-completed', 1, 1))
+    return claims
 
 
 def _run_long(desc, V):
@@ -128,6 +196,8 @@ def _values(kind, V, tag, n, rng):
 def run_case(desc, V):
     if desc['kind'] == 'long-history':
         return _run_long(desc, V)
+    if desc['kind'] == 'failing-history':
+        return _run_failing(desc, V)
     from kingdon.multivector import MultiVector
     kapi.install_recorder()
     alg = make_alg(desc['cfg'])          # own algebra: the history of this case only
@@ -189,6 +259,15 @@ def run_case(desc, V):
             claims.append(Fail(f'cache-grew[{i}:{kind}]', f'len(alg.{op}) went from {n_entries} to {len(opdict)} on a repeat with {kind} coefficients',
                                fkey=f'repeat|{op}|cache-size'))
             n_entries = len(opdict)
+    claims += _twice_claims(alg, op)
     claims.append(Eq('history-completed', 1, 1))
     claims.append(Note('nontrivial', 'a history of repeats was executed and observed'))
     return claims
+
+
+def _twice_claims(alg, op):
+    out = []
+    for (name, keys), n in sorted(kapi.generated_more_than_once(alg).items(), key=str)[:5]:
+        out.append(Fail(f'generated-twice[{name}]', f'code for {name} with key patterns {keys} was generated {n} times on one algebra',
+                        fkey=f'history|generated-more-than-once|{"same-operator" if name.replace("compile:", "").endswith(op) or op in name else "nested-operator"}'))
+    return out
